@@ -37,6 +37,14 @@ Record transfers_pp (P : preds) (c : cfg) (ep : Z) (sqf : tpk -> Z) : Prop := mk
   tp_marker : forall t p b r, PQ P (DBp b) (marker c t p F_SYN r) /\ PQ P (DBp b) (marker c t p F_FIN r)
 }.
 
+(* stamping conditions that hold for whatever stamp is used (needed when a flush bumps the epoch half-way) *)
+Record transfers_any (P : preds) (c : cfg) : Prop := mkTransfersAny {
+  ta_fwd : forall t p b m sq e, PQ P (DPart t p) m ->
+           PQ P (DBp b) (if c_idem c && fresh_pass m && is_data m then set_stamp m sq e else m);
+  ta_flush : forall t p b m sq e, PL P (t, p) m ->
+           PQ P (DBp b) (if c_idem c && fresh_pass m && is_data m && negb (m_hasseq m) then set_stamp m sq e else m)
+}.
+
 (* all conditions; G guards the partition worker's: they are needed for CPp steps only *)
 Record transfers (P : preds) (G : Prop) (c : cfg) (ep : Z) (sqf : tpk -> Z) : Prop := mkTransfers {
   t_disp : forall m sz h, PQ P DDisp m -> PQ P (DTopic (m_topic m)) (set_body m sz h);
@@ -299,32 +307,81 @@ Proof. apply levels_upd_ok. intros l H; exact H. Qed.
 Lemma levels_push (Q : msg -> Prop) lv i m : Q m -> Forall Q (flat_map l_buf lv) -> Forall Q (flat_map l_buf (push_buf i m lv)).
 Proof. intros Hm. apply levels_upd_ok. intros l H. cbn [l_buf]. apply Forall_app. split; [exact H | constructor; [exact Hm | constructor]]. Qed.
 
-Lemma flush_okP t p : forall h hasbp leader lv stamp ls,
-  Forall (PL P (t, p)) (flat_map l_buf lv) -> snd stamp = ep -> sqf (t, p) <= fst stamp ->
+Lemma bumps_app a b : bumps (a ++ b) = bumps a + bumps b.
+Proof. induction a as [|e a IH]; cbn [app bumps]; [reflexivity|]. destruct e; try exact IH. rewrite IH. lia. Qed.
+Lemma bumps_nonneg l : 0 <= bumps l.
+Proof. induction l as [|e l IH]; cbn [bumps]; [lia|]. destruct e; try exact IH. destruct (m_hasseq m); lia. Qed.
+
+Lemma flush_sends_any t p (TA : transfers_any P c) e : forall buf sq, Forall (PL P (t, p)) buf ->
+  Forall (eff_okP P) (fst (flush_sends c t p sq e buf)).
+Proof.
+  induction buf as [|m r IH]; intros sq Hb; cbn [flush_sends]; [constructor|]. inversion Hb as [|? ? Hm Hr]; subst.
+  pose proof (fun b => ta_flush _ _ TA t p b m sq e Hm) as Hx.
+  destruct (c_idem c && fresh_pass m && is_data m && negb (m_hasseq m)).
+  - specialize (IH (sq + 1) Hr). destruct (flush_sends c t p (sq + 1) e r). cbn [fst] in *.
+    constructor; [exact I|]. constructor; [exact Hx | exact IH].
+  - specialize (IH sq Hr). destruct (flush_sends c t p sq e r). cbn [fst] in *. constructor; [exact Hx | exact IH].
+Qed.
+
+Lemma flush_okP_any t p (TA : transfers_any P c) : forall h hasbp leader lv stamp ls,
+  Forall (PL P (t, p)) (flat_map l_buf lv) ->
   Forall (PL P (t, p)) (flat_map l_buf (snd (fst (flush c t p h hasbp leader lv stamp ls)))) /\
   Forall (eff_okP P) (snd (flush c t p h hasbp leader lv stamp ls)).
 Proof.
-  induction h as [|h' IH]; intros hasbp leader lv stamp ls Hl He Hs; [split; [exact Hl | apply nosend_ok; reflexivity]|].
+  induction h as [|h' IH]; intros hasbp leader lv stamp ls Hl; [split; [exact Hl | apply nosend_ok; reflexivity]|].
   cbn [flush].
+  pose proof (flush_sends_any t p TA (snd stamp) (l_buf (get_level h' lv)) (fst stamp) (in_levels_nth _ _ _ Hl)) as Qs.
+  destruct (flush_sends c t p (fst stamp) (snd stamp) (l_buf (get_level h' lv))) as [es sq']. cbn [fst] in Qs.
+  pose proof (levels_set_buf_nil _ lv h' Hl) as Hl1.
+  destruct hasbp.
+  - destruct (l_chaser (get_level h' lv) || (h' =? 0)%nat); cbn [fst snd]; [split; assumption|].
+    match goal with |- context [flush c t p h' true leader (set_buf h' [] lv) ?sx ls] =>
+      destruct (IH true leader (set_buf h' [] lv) sx ls Hl1) as [I1 I2]; destruct (flush c t p h' true leader (set_buf h' [] lv) sx ls) as [res e2] end.
+    cbn [fst snd] in *. split; [exact I1 | apply okP_app; assumption].
+  - destruct (next_lres ls) as [[b|e] r].
+    + destruct (l_chaser (get_level h' lv) || (h' =? 0)%nat); cbn [fst snd]; [split; [exact Hl1 | apply okP_app; [apply leader_okP | exact Qs]]|].
+      match goal with |- context [flush c t p h' true b (set_buf h' [] lv) ?sx r] =>
+        destruct (IH true b (set_buf h' [] lv) sx r Hl1) as [I1 I2]; destruct (flush c t p h' true b (set_buf h' [] lv) sx r) as [res e2] end.
+      cbn [fst snd] in *. split; [exact I1 | apply okP_app; [apply okP_app; [apply leader_okP | exact Qs] | exact I2]].
+    + destruct (l_chaser (get_level h' lv) || (h' =? 0)%nat); cbn [fst snd]; [split; [exact Hl1 | apply nosend_ok, ns_return_errors]|].
+      match goal with |- context [flush c t p h' false leader (set_buf h' [] lv) ?sx r] =>
+        destruct (IH false leader (set_buf h' [] lv) sx r Hl1) as [I1 I2]; destruct (flush c t p h' false leader (set_buf h' [] lv) sx r) as [res e2] end.
+      cbn [fst snd] in *. split; [exact I1 | apply okP_app; [apply nosend_ok, ns_return_errors | exact I2]].
+Qed.
+
+Lemma flush_okP t p : forall h hasbp leader lv stamp ls,
+  Forall (PL P (t, p)) (flat_map l_buf lv) -> snd stamp = ep -> sqf (t, p) <= fst stamp ->
+  bumps (snd (flush c t p h hasbp leader lv stamp ls)) = 0 ->
+  Forall (PL P (t, p)) (flat_map l_buf (snd (fst (flush c t p h hasbp leader lv stamp ls)))) /\
+  Forall (eff_okP P) (snd (flush c t p h hasbp leader lv stamp ls)).
+Proof.
+  induction h as [|h' IH]; intros hasbp leader lv stamp ls Hl He Hs Hnb; [split; [exact Hl | apply nosend_ok; reflexivity]|].
+  cbn [flush] in *.
   pose proof (flush_sends_okP t p (l_buf (get_level h' lv)) (fst stamp) (in_levels_nth _ _ _ Hl) Hs) as Qs.
   pose proof (flush_sends_mono t p (snd stamp) (l_buf (get_level h' lv)) (fst stamp)) as Qm.
   rewrite He in *.
   destruct (flush_sends c t p (fst stamp) ep (l_buf (get_level h' lv))) as [es sq'] eqn:Es. cbn [fst snd] in Qs, Qm.
   pose proof (levels_set_buf_nil _ lv h' Hl) as Hl1.
+  assert (Bz : forall a b, bumps (a ++ b) = 0 -> bumps a = 0 /\ bumps b = 0).
+  { intros a b H. rewrite bumps_app in H. pose proof (bumps_nonneg a). pose proof (bumps_nonneg b). lia. }
   destruct hasbp.
-  - destruct (l_chaser (get_level h' lv) || (h' =? 0)%nat); cbn [fst snd]; [split; assumption|].
-    destruct (IH true leader (set_buf h' [] lv) (sq', ep) ls Hl1 eq_refl ltac:(cbn [fst]; lia)) as [I1 I2].
-    cbn [snd] in *. destruct (flush c t p h' true leader (set_buf h' [] lv) (sq', ep) ls) as [res e2]. cbn [fst snd] in *.
-    split; [exact I1 | apply okP_app; assumption].
+  - destruct (l_chaser (get_level h' lv) || (h' =? 0)%nat); cbn [fst snd] in *; [split; assumption|].
+    destruct (flush c t p h' true leader (set_buf h' [] lv) (sq', ep) ls) as [res e2] eqn:Ef. cbn [fst snd] in *.
+    destruct (Bz _ _ Hnb) as [_ B2].
+    destruct (IH true leader (set_buf h' [] lv) (sq', ep) ls Hl1 eq_refl ltac:(cbn [fst]; lia) ltac:(rewrite Ef; exact B2)) as [I1 I2].
+    rewrite Ef in I1, I2. cbn [fst snd] in *. split; [exact I1 | apply okP_app; assumption].
   - destruct (next_lres ls) as [[b|e] r].
-    + destruct (l_chaser (get_level h' lv) || (h' =? 0)%nat); cbn [fst snd]; [split; [exact Hl1 | apply okP_app; [apply leader_okP | exact Qs]]|].
-      destruct (IH true b (set_buf h' [] lv) (sq', ep) r Hl1 eq_refl ltac:(cbn [fst]; lia)) as [I1 I2].
-      cbn [snd] in *. destruct (flush c t p h' true b (set_buf h' [] lv) (sq', ep) r) as [res e2]. cbn [fst snd] in *.
-      split; [exact I1 | apply okP_app; [apply okP_app; [apply leader_okP | exact Qs] | exact I2]].
-    + destruct (l_chaser (get_level h' lv) || (h' =? 0)%nat); cbn [fst snd]; [split; [exact Hl1 | apply nosend_ok, ns_return_errors]|].
-      destruct (IH false leader (set_buf h' [] lv) (fst stamp, ep) r Hl1 eq_refl Hs) as [I1 I2].
-      cbn [snd] in *. destruct (flush c t p h' false leader (set_buf h' [] lv) (fst stamp, ep) r) as [res e2]. cbn [fst snd] in *.
-      split; [exact I1 | apply okP_app; [apply nosend_ok, ns_return_errors | exact I2]].
+    + destruct (l_chaser (get_level h' lv) || (h' =? 0)%nat); cbn [fst snd] in *; [split; [exact Hl1 | apply okP_app; [apply leader_okP | exact Qs]]|].
+      destruct (flush c t p h' true b (set_buf h' [] lv) (sq', ep) r) as [res e2] eqn:Ef. cbn [fst snd] in *.
+      destruct (Bz _ _ Hnb) as [_ B2].
+      destruct (IH true b (set_buf h' [] lv) (sq', ep) r Hl1 eq_refl ltac:(cbn [fst]; lia) ltac:(rewrite Ef; exact B2)) as [I1 I2].
+      rewrite Ef in I1, I2. cbn [fst snd] in *. split; [exact I1 | apply okP_app; [apply okP_app; [apply leader_okP | exact Qs] | exact I2]].
+    + destruct (l_chaser (get_level h' lv) || (h' =? 0)%nat); cbn [fst snd] in *; [split; [exact Hl1 | apply nosend_ok, ns_return_errors]|].
+      set (nb := bumps (return_errors (l_buf (get_level h' lv)) e)) in *.
+      destruct (flush c t p h' false leader (set_buf h' [] lv) (if 0 <? nb then (0, ep + nb) else stamp) r) as [res e2] eqn:Ef. cbn [fst snd] in *.
+      destruct (Bz _ _ Hnb) as [B1 B2]. fold nb in B1. rewrite B1 in Ef. cbn in Ef.
+      destruct (IH false leader (set_buf h' [] lv) stamp r Hl1 He Hs ltac:(rewrite Ef; exact B2)) as [I1 I2].
+      rewrite Ef in I1, I2. cbn [fst snd] in *. split; [exact I1 | apply okP_app; [apply nosend_ok, ns_return_errors | exact I2]].
 Qed.
 
 Lemma pp_forward_okP t p st m stamp ls pre : PQ P (DPart t p) m -> snd stamp = ep -> fst stamp = sqf (t, p) ->
@@ -349,16 +406,18 @@ Qed.
 
 Lemma pp_step_okP t p st m ab stamp ls :
   Forall (PL P (t, p)) (pp_msgs st) -> PQ P (DPart t p) m -> snd stamp = ep -> fst stamp = sqf (t, p) ->
+  bumps (snd (pp_step c t p st m ab stamp ls)) = 0 \/ transfers_any P c ->
   Forall (PL P (t, p)) (pp_msgs (fst (pp_step c t p st m ab stamp ls))) /\
   Forall (eff_okP P) (snd (pp_step c t p st m ab stamp ls)).
 Proof.
-  intros Hl Hm He Hs. unfold pp_step.
-  set (e1 := if p_has_bp st && ab then [EUnref] else []).
+  intros Hl Hm He Hs HB. unfold pp_step in *.
+  set (e1 := if p_has_bp st && ab then [EUnref] else []) in *.
   assert (He1 : Forall (eff_okP P) e1) by (subst e1; destruct (p_has_bp st && ab); apply nosend_ok; reflexivity).
-  set (st1 := if p_has_bp st && ab then _ else st).
+  set (st1 := if p_has_bp st && ab then _ else st) in *.
   assert (Hl1 : Forall (PL P (t, p)) (flat_map l_buf (p_levels st1))) by (subst st1; destruct (p_has_bp st && ab); exact Hl).
+  assert (Hb1 : bumps e1 = 0) by (subst e1; destruct (p_has_bp st && ab); reflexivity).
   clearbody st1 e1. unfold pp_msgs.
-  destruct (p_hwm st1 <? m_retries m)%nat.
+  destruct (p_hwm st1 <? m_retries m)%nat eqn:C1.
   - destruct (c_retry_max c <? m_retries m)%nat; [cbn [fst snd]; split; [exact Hl1 | apply okP_app; [exact He1 | apply nosend_ok; reflexivity]]|].
     destruct (negb (p_has_bp st1)); [cbn [fst snd]; split; [exact Hl1 | apply okP_app; [exact He1 | apply nosend_ok; reflexivity]]|].
     match goal with |- context [pp_forward c t p ?st2 m stamp ls ?pre] =>
@@ -366,15 +425,20 @@ Proof.
     { apply okP_app; [exact He1|]. constructor; [exact I|]. constructor; [cbn [eff_okP]; intros b; apply (tp_marker _ _ _ _ TP)|].
       constructor; [exact I | constructor]. }
     split; [rewrite F2; cbn [p_levels]; apply levels_set_chaser, Hl1 | exact F1].
-  - destruct (0 <? p_hwm st1)%nat.
-    + destruct (m_retries m <? p_hwm st1)%nat.
+  - destruct (0 <? p_hwm st1)%nat eqn:C2.
+    + destruct (m_retries m <? p_hwm st1)%nat eqn:C3.
       * destruct (length (p_levels st1) <=? m_retries m)%nat; [cbn [fst snd]; split; [exact Hl1 | apply okP_app; [exact He1 | apply nosend_ok; reflexivity]]|].
         destruct (is_fin m); cbn [fst snd p_levels].
         -- split; [apply levels_set_chaser, Hl1 | apply okP_app; [exact He1 | apply nosend_ok; reflexivity]].
         -- split; [apply levels_push; [apply (tp_buf _ _ _ _ TP), Hm | exact Hl1] | exact He1].
-      * destruct (is_fin m).
-        -- destruct (flush_okP t p (p_hwm st1) (p_has_bp st1) (p_leader st1) (set_chaser (p_hwm st1) false (p_levels st1)) stamp ls
-                       (levels_set_chaser _ _ _ _ Hl1) He ltac:(lia)) as [F1 F2].
+      * destruct (is_fin m) eqn:C4.
+        -- assert (FF : Forall (PL P (t, p)) (flat_map l_buf (snd (fst (flush c t p (p_hwm st1) (p_has_bp st1) (p_leader st1) (set_chaser (p_hwm st1) false (p_levels st1)) stamp ls)))) /\
+                         Forall (eff_okP P) (snd (flush c t p (p_hwm st1) (p_has_bp st1) (p_leader st1) (set_chaser (p_hwm st1) false (p_levels st1)) stamp ls))).
+           { destruct HB as [HB|TA]; [|apply flush_okP_any; [exact TA | apply levels_set_chaser, Hl1]].
+             apply flush_okP; [apply levels_set_chaser, Hl1 | exact He | lia|].
+             destruct (flush c t p (p_hwm st1) (p_has_bp st1) (p_leader st1) (set_chaser (p_hwm st1) false (p_levels st1)) stamp ls) as [[[[h' hasbp] leader] lv'] effs].
+             cbn [snd] in *. rewrite !bumps_app in HB. pose proof (bumps_nonneg effs). pose proof (bumps_nonneg [EDone m]). lia. }
+           destruct FF as [F1 F2].
            destruct (flush c t p (p_hwm st1) (p_has_bp st1) (p_leader st1) _ stamp ls) as [[[[h' hasbp] leader] lv'] effs].
            cbn [fst snd p_levels] in *. split; [exact F1 | apply okP_app; [exact He1 | apply okP_app; [exact F2 | apply nosend_ok; reflexivity]]].
         -- destruct (pp_forward_okP t p st1 m stamp ls e1 Hm He Hs He1) as [F1 F2]. split; [rewrite F2; exact Hl1 | exact F1].
@@ -612,12 +676,48 @@ Qed.
 Lemma Forall_nth' (Q : bpi -> Prop) : forall l i x, Forall Q l -> nth_error l i = Some x -> Q x.
 Proof. intros l i x HF Hn. rewrite Forall_forall in HF. apply HF. eapply nth_error_In, Hn. Qed.
 
-Lemma run_pp_places s k x m ls : places_ok P s -> Forall (PL P k) (pp_msgs (pr_st x)) ->
-  PQ P (DPart (fst k) (snd k)) m -> tr_at s -> G -> places_ok P (run_pp c s k x m ls).
+Lemma get_bp_epoch s br : g_epoch (fst (get_bp s br)) = g_epoch s.
+Proof. unfold get_bp. destruct (find_reg br (g_bps s) 0%nat); reflexivity. Qed.
+Lemma set_handle_epoch s w h : g_epoch (set_handle s w h) = g_epoch s.
+Proof. unfold set_handle. destruct w; try reflexivity. destruct (pp_get k (g_pps s)); reflexivity. Qed.
+
+Lemma epoch_apply_eff w s e : g_epoch (apply_eff c w s e) = g_epoch s + bumps [e].
 Proof.
-  intros H Hx Hm T HG. unfold run_pp. destruct k as [t p]. cbn [fst snd] in *.
+  destruct e; cbn [apply_eff bumps]; try lia.
+  - destruct d; try (cbn; lia). destruct (handle_of s w); [|cbn; lia]. destruct (nth_error (g_bps s) n); [|cbn; lia].
+    destruct (i_in_closed b); cbn; lia.
+  - unfold emit. destruct (m_hasseq m); destruct (g_closed s); cbn; lia.
+  - unfold emit. destruct (g_closed s); cbn; lia.
+  - unfold emit. destruct (g_closed s); cbn; lia.
+  - cbn; lia.
+  - cbn; lia.
+  - cbn; lia.
+  - cbn; lia.
+  - cbn; lia.
+  - destruct (handle_of s w) as [b|]; [|lia]. rewrite set_handle_epoch. cbn. lia.
+  - destruct (get_bp s broker) as [s1 b] eqn:E. rewrite set_handle_epoch. pose proof (get_bp_epoch s broker) as G1. rewrite E in G1. cbn [fst] in G1. lia.
+  - destruct (find_reg broker (g_bps s) 0%nat); cbn; lia.
+  - destruct w; try (cbn; lia). destruct (nth_error (g_bps s) b); cbn; lia.
+  - cbn; lia.
+  - destruct (get_bp s broker) as [s1 b] eqn:E. pose proof (get_bp_epoch s broker) as G1. rewrite E in G1. cbn [fst] in G1. cbn. lia.
+  - cbn; lia.
+Qed.
+Lemma epoch_apply_effs w : forall l s, g_epoch (apply_effs c w s l) = g_epoch s + bumps l.
+Proof.
+  induction l as [|e l IH]; intros s; cbn [apply_effs fold_left]; [cbn; lia|].
+  fold (apply_effs c w (apply_eff c w s e) l). rewrite IH, epoch_apply_eff. change (e :: l) with ([e] ++ l). rewrite bumps_app. lia.
+Qed.
+
+Lemma run_pp_places s k x m ls : places_ok P s -> Forall (PL P k) (pp_msgs (pr_st x)) ->
+  PQ P (DPart (fst k) (snd k)) m -> tr_at s -> G ->
+  g_epoch (run_pp c s k x m ls) = g_epoch s \/ transfers_any P c -> places_ok P (run_pp c s k x m ls).
+Proof.
+  intros H Hx Hm T HG HB. unfold run_pp in *. destruct k as [t p]. cbn [fst snd] in *.
   match goal with |- context [pp_step c t p (pr_st x) m ?ab ?stamp ls] =>
-    destruct (pp_step_okP P c (g_epoch s) (fun k => seq_get k (g_seqs s)) (t_pp _ _ _ _ _ T HG) t p (pr_st x) m ab stamp ls Hx Hm eq_refl eq_refl) as [F1 F2];
+    assert (HB' : bumps (snd (pp_step c t p (pr_st x) m ab stamp ls)) = 0 \/ transfers_any P c);
+    [destruct HB as [HB|TA]; [left | right; exact TA];
+     destruct (pp_step c t p (pr_st x) m ab stamp ls) as [st0 effs0]; cbn [snd]; rewrite epoch_apply_effs in HB; cbn [set_pps g_epoch] in HB; lia|];
+    destruct (pp_step_okP P c (g_epoch s) (fun k => seq_get k (g_seqs s)) (t_pp _ _ _ _ _ T HG) t p (pr_st x) m ab stamp ls Hx Hm eq_refl eq_refl HB') as [F1 F2];
     destruct (pp_step c t p (pr_st x) m ab stamp ls) as [st' effs] end.
   cbn [fst snd] in *. apply apply_effs_places; [|exact F2].
   destruct H as [H1 H2 H3 H4]. constructor; cbn [set_pps g_q g_pps g_bps g_rbs]; try assumption.
@@ -660,9 +760,10 @@ Proof. unfold tr_at. intros -> ->. auto. Qed.
 
 Lemma raw_step_places s ch : places_ok P s -> tr_at s -> (forall t p ls, ch = CPp t p ls -> G) ->
   (forall x, ch = CSubmit x -> g_close_req s = false -> PQ P DDisp (fresh_of x)) -> PQ P DDisp (shutdown_marker c) ->
+  g_epoch (raw_step c s ch) = g_epoch s \/ transfers_any P c ->
   places_ok P (raw_step c s ch).
 Proof.
-  intros H T HGc Hsub Hshut. destruct ch; cbn [raw_step].
+  intros H T HGc Hsub Hshut HB. destruct ch; cbn [raw_step].
   - (* CSubmit *) destruct (g_close_req s) eqn:Ecr; [exact H|].
     eapply places_same; [| | | |apply (places_push P s DDisp (fresh_of m) H (Hsub m eq_refl eq_refl))]; reflexivity.
   - (* CAsyncClose *) destruct (g_close_req s); [exact H|].
@@ -678,8 +779,8 @@ Proof.
   - (* CPp *)
     destruct (pop (DPart t p) s) as [[m s1]|] eqn:E; [|exact H]. destruct (pop_places _ _ _ _ H E) as [Hm [H1 [E1 E2]]].
     assert (T1 : tr_at s1) by (eapply tr_at_same; eassumption).
-    pose proof (HGc t p ls eq_refl) as HG.
-    destruct (pp_get (t, p) (g_pps s1)) as [x|] eqn:Ex; [apply run_pp_places; [exact H1 | apply (po_pp _ _ H1 _ _ (pp_get_in _ _ _ Ex)) | exact Hm | exact T1 | exact HG]|].
+    pose proof (HGc t p ls eq_refl) as HG. cbn [raw_step] in HB. rewrite E in HB.
+    destruct (pp_get (t, p) (g_pps s1)) as [x|] eqn:Ex; [apply run_pp_places; [exact H1 | apply (po_pp _ _ H1 _ _ (pp_get_in _ _ _ Ex)) | exact Hm | exact T1 | exact HG | destruct HB as [HB|HB]; [left; rewrite HB; symmetry; exact E1 | right; exact HB]]|].
     destruct (next_lres ls) as [l0 ls'].
     destruct (pp_init_okP P c _ _ (t_pp _ _ _ _ _ T1 HG) t p l0) as [Q0 Q1].
     pose proof (pp_init_txn (WPp (t, p)) (set_pps s1 (pp_set (t, p) (mkPpr (fst (pp_init c t p l0)) None) (g_pps s1))) t p l0) as [X1 X2].
@@ -691,7 +792,8 @@ Proof.
     pose proof (apply_effs_places P c (WPp (t, p)) effs0 s2 H2 Q0) as H3.
     set (s3 := apply_effs c (WPp (t, p)) s2 effs0) in *.
     assert (T3 : tr_at s3) by (eapply tr_at_same; [exact X1 | exact X2 | exact T1]).
-    apply run_pp_places; [exact H3 | | exact Hm | exact T3 | exact HG].
+    apply run_pp_places; [exact H3 | | exact Hm | exact T3 | exact HG|].
+    2:{ destruct HB as [HB|HB]; [left | right; exact HB]. transitivity (g_epoch s); [exact HB | rewrite X1; symmetry; exact E1]. }
     destruct (pp_get (t, p) (g_pps s3)) as [x|] eqn:Ex3; [apply (po_pp _ _ H3 _ _ (pp_get_in _ _ _ Ex3)) | cbn [pr_st]; rewrite Q1; constructor].
   - (* CBpRecv *)
     destruct (nth_error (g_bps s) b) as [x|] eqn:En; [|exact H]. destruct (flush_poll (i_st x)); [|exact H].
@@ -746,9 +848,10 @@ Qed.
 
 Theorem step_places s ch : places_ok P s -> tr_at s -> (forall t p ls, ch = CPp t p ls -> G) ->
   (forall x, ch = CSubmit x -> g_close_req s = false -> g_panic s = None -> PQ P DDisp (fresh_of x)) -> PQ P DDisp (shutdown_marker c) ->
+  g_epoch (step c s ch) = g_epoch s \/ transfers_any P c ->
   places_ok P (step c s ch).
 Proof.
-  intros H T HGc H1 H2. unfold step. destruct (g_panic s) eqn:Eps; [exact H|].
+  intros H T HGc H1 H2 HB. unfold step in *. destruct (g_panic s) eqn:Eps; [exact H|].
   destruct (g_panic (raw_step c s ch)); [eapply places_same; [| | | |exact H]; reflexivity | apply raw_step_places; try assumption].
   intros x Ex Ec. apply H1; [exact Ex | exact Ec | reflexivity].
 Qed.
